@@ -27,8 +27,11 @@ enum Where {
     TaskThenShutdown,
     /// ... shuts down and restarts one second later
     TaskThenRestart,
+    /// the module restarts itself (requested at its 2nd message, one second later) and the
+    /// restarted incarnation panics in this start stage, i.e. inside its restart event
+    RestartStage(usize),
 }
-const PLACES: [Where; 11] = [Where::None, Where::Start(0), Where::Start(1), Where::Msg(1), Where::Msg(2), Where::Msg(3), Where::Msg(5), Where::End, Where::Task, Where::TaskThenShutdown, Where::TaskThenRestart];
+const PLACES: [Where; 13] = [Where::None, Where::Start(0), Where::Start(1), Where::Msg(1), Where::Msg(2), Where::Msg(3), Where::Msg(5), Where::End, Where::Task, Where::TaskThenShutdown, Where::TaskThenRestart, Where::RestartStage(0), Where::RestartStage(1)];
 
 struct P {
     log: Log,
@@ -40,6 +43,7 @@ struct P {
     catching: bool,
     out: bool,
     went_down: bool,
+    inc: u32,
 }
 impl Module for P {
     fn num_sim_start_stages(&self) -> usize {
@@ -48,6 +52,9 @@ impl Module for P {
     fn at_sim_start(&mut self, st: usize) {
         if self.catching {
             current().set_stereotyp(Stereotyp { on_panic_catch: true, ..Default::default() });
+        }
+        if st == 0 {
+            self.inc += 1;
         }
         if self.silent {
             return;
@@ -66,6 +73,14 @@ impl Module for P {
                     lg(&l, format!("{name}:tick{i}"));
                 }
             });
+        }
+        if self.fault == Where::RestartStage(st) && self.inc == 2 {
+            if self.silent_variant {
+                self.silent = true;
+                current().shutdown();
+            } else {
+                panic!("boom")
+            }
         }
         if self.fault == Where::Start(st) {
             if self.silent_variant {
@@ -104,6 +119,9 @@ impl Module for P {
                 } else {
                     current().shutdow_and_restart_in(Duration::from_secs(1));
                 }
+            }
+            if self.n == 2 && self.inc == 1 && matches!(self.fault, Where::RestartStage(_)) {
+                current().shutdow_and_restart_in(Duration::from_secs(1));
             }
             if self.fault == Where::Msg(self.n) {
                 if self.silent_variant {
@@ -149,7 +167,7 @@ fn run(c: &Case, silent_variant: bool) -> RunOut {
     let r = quiet_catch(move || {
         let log = l2;
         let mut sim = Sim::new(());
-        let mk = |name, fault, catching, out| P { log: log.clone(), name, fault, silent_variant, n: 0, silent: false, catching, out, went_down: false };
+        let mk = |name, fault, catching, out| P { log: log.clone(), name, fault, silent_variant, n: 0, silent: false, catching, out, went_down: false, inc: 0 };
         sim.node("a", mk("a", Where::None, false, true));
         sim.node("f", mk("f", c.f, c.cf, true));
         sim.node("g", mk("g", c.g, c.cg, true));
@@ -299,7 +317,7 @@ impl Property for C13 {
         ]
     }
     fn required_features(&self, _tier: Tier) -> Vec<&'static str> {
-        vec!["single_fault", "two_faulty_modules", "three_faulty_modules", "catching_stereotype", "fault_in_start_stage", "fault_in_teardown", "fault_in_joined_task", "fault_in_nth_message", "joined_task_panic_then_shutdown_of_the_module"]
+        vec!["single_fault", "two_faulty_modules", "three_faulty_modules", "catching_stereotype", "fault_in_start_stage", "fault_in_teardown", "fault_in_joined_task", "fault_in_nth_message", "joined_task_panic_then_shutdown_of_the_module", "fault_in_start_stage_of_a_restart"]
     }
     fn explore(&self, ctx: &mut Ctx) {
         let clean = run(&CLEAN, false);
@@ -358,6 +376,7 @@ impl Property for C13 {
                         for w in [f, g, h] {
                             match w {
                                 Where::Start(_) => ctx.hit("fault_in_start_stage"),
+                                Where::RestartStage(_) => ctx.hit("fault_in_start_stage_of_a_restart"),
                                 Where::End => ctx.hit("fault_in_teardown"),
                                 Where::Task => ctx.hit("fault_in_joined_task"),
                                 Where::TaskThenShutdown | Where::TaskThenRestart => ctx.hit("joined_task_panic_then_shutdown_of_the_module"),
